@@ -617,7 +617,9 @@ func c16GenNoise(c *ctx) {
 		if c.thorough() {
 			lens = []int{0, 1, 19, 24, 25, 40, 64, 96, 120, 160, 250}
 		}
-		pres := []string{"", "user@host:~/work/dir$ tsz a.bin\r\n"}
+		// text in front of the line: none, a prompt, and the two halves of a redraw the reader
+		// came in on (an incomplete status string in front of the marker is just unrelated text)
+		pres := []string{"", "user@host:~/work/dir$ tsz a.bin\r\n", "25h\x1b[5 q\x1bP=2s\x1b\\", "\x1bP=1s\x1b\\\x1b[?25l\x1b[?12l"}
 		ins := func(line []byte, o int, x []byte) []byte {
 			return append(append(append([]byte(nil), line[:o]...), x...), line[o:]...)
 		}
@@ -648,7 +650,7 @@ func c16GenNoise(c *ctx) {
 					}
 					// through recvLine, with and without text in front, in every chunking class
 					for pi, pre := range pres {
-						if pi == 1 && (o+fi)%2 == 1 {
+						if pi == 1 && (o+fi)%2 == 1 || pi >= 2 && (o+fi)%4 != pi-2 {
 							continue
 						}
 						stream := append(append([]byte(pre), s...), '\n')
